@@ -195,4 +195,7 @@ func logObs(res *Result, o *enga.Obs) {
 		fs += e.Op + ":" + e.Stage + ":" + fmt.Sprint(e.Err != "") + ";"
 	}
 	res.LogHash = hkey(res.LogHash, o.Outcome, diag, o.DecHash, o.DecN, hash64(o.Stdout), hash64(string(o.Output)), fs)
+	if o.DecN > 0 && len(res.Scheds) < 64 {
+		res.Scheds = append(res.Scheds, fmt.Sprintf("%016x", o.DecHash))
+	}
 }
